@@ -34,6 +34,7 @@ META = {
                      "the default MarginalImputer evaluates the model once per inner sample (C06 COUNT)"],
     "assumptions": ["d >= 1 features, n_inner >= 1"],
 }
+META["explanation"] += ' Also COPY for the explainers, NumPy functions on the feature names in constructors, function-only attributes read from the callables, DEP-C14.'
 MIN_INSTANCES = {"DEFAULTS": 6, "NULL": 20, "ARITY": 20, "LOSSCALL": 9, "NAMES": 4, "BUDGET": 4, "NOMUT": 4, "STORAGE": 2, "RETURN": 4, "COPY": 3}
 
 ORDER_OPS = {"<", "<=", ">", ">="}
